@@ -577,9 +577,12 @@ Proof.
                          | eapply tok_burn_core_csame; eassumption
                          | reflexivity
                          | eapply csame_trans; [eapply tok_transfer_checked_csame; eassumption|eapply withdraw_sol_cpi_csame; eassumption] ] ].
-  destruct ms as [|callee rest]; invp.
-  specialize (IHd _ _ _ _ _ _ k Hm). unfold cstepD in IHd. destruct (rd_frame d); [|exact IHd].
-  eapply cstep_signers; [|exact IHd]. intros x. apply (cpi_metas_signer _ _ _ _ _ Hm1).
+  - destruct ms as [|callee rest]; invp.
+    specialize (IHd _ _ _ _ _ _ k Hm). unfold cstepD in IHd. destruct (rd_frame d); [|exact IHd].
+    eapply cstep_signers; [|exact IHd]. intros x. apply (cpi_metas_signer _ _ _ _ _ Hm1).
+  - match goal with Hb : (if ?b then _ else _) = Ok _ |- _ => destruct b; revert Hb end.
+    + intros H; invp. eapply csame_trans; [eapply tok_transfer_checked_csame; eassumption|eapply withdraw_sol_cpi_csame; eassumption].
+    + destruct (nthk ms 8); intros H; invp. eapply withdraw_sol_cpi_csame; eassumption.
 Qed.
 
 (* ------------------------------------------------------------------ 7. B1: every stored table is empty or valid *)
